@@ -580,3 +580,96 @@ MANIFEST = {
     "level_note": "Trusted: ast parse = what runs; TLV decoding (C15); decorators of the BLE functions treated as transparent; "
     "a reply dict is what dict(TLV.decode_*) returns. Unrecognised restructurings end in ANALYSIS-ERROR (exit 2), not a pass.",
 }
+
+TWIN_FILES = [
+    "aiohomekit/protocol/__init__.py",
+    "aiohomekit/controller/ip/pairing.py",
+    "aiohomekit/controller/ble/pairing.py",
+]
+_PF = "aiohomekit/protocol/__init__.py"
+VARIANTS = [
+    {
+        "name": "missing-state shortcut before the error test (the pinned defect)",
+        "file": _PF,
+        "old": "    if actual_state is not None and actual_state != expected_state:\n",
+        "new": "    if actual_state is None:\n        return\n    if actual_state != expected_state:\n",
+        "expect": "C04.G1",
+    },
+    {
+        "name": "error test inverted",
+        "file": _PF,
+        "old": "    if TLV.kTLVType_Error in tlv_dict:\n        error_handler(",
+        "new": "    if TLV.kTLVType_Error not in tlv_dict:\n        error_handler(",
+        "expect": "C04.G1",
+    },
+    {
+        "name": "wrong state only logged",
+        "file": _PF,
+        "old": '        raise InvalidError(f"Exepected state {expected_state} but got {actual_state}")',
+        "new": '        logger.debug(f"Exepected state {expected_state} but got {actual_state}")',
+        "expect": "C04.G1",
+    },
+    {
+        "name": "two rows of error_handler swapped",
+        "file": _PF,
+        "old": "    if error == TLV.kTLVError_Backoff:\n        raise BackoffError(stage)\n    if error == TLV.kTLVError_MaxPeers:\n        raise MaxPeersError(stage)",
+        "new": "    if error == TLV.kTLVError_Backoff:\n        raise MaxPeersError(stage)\n    if error == TLV.kTLVError_MaxPeers:\n        raise BackoffError(stage)",
+        "expect": "C04.K1",
+    },
+    {
+        "name": "error_handler returns for busy",
+        "file": _PF,
+        "old": "    if error == TLV.kTLVError_Busy:\n        raise BusyError(stage)",
+        "new": "    if error == TLV.kTLVError_Busy:\n        return",
+        "expect": ["C04.G2", "C04.K1"],
+    },
+    {
+        "name": "error constant changed in tlv.py",
+        "file": "aiohomekit/protocol/tlv.py",
+        "old": 'kTLVError_MaxTries = bytearray(b"\\x05")',
+        "new": 'kTLVError_MaxTries = bytearray(b"\\x08")',
+        "expect": "C04.K1",
+    },
+    {
+        "name": "step check after M4 of pair-verify deleted",
+        "file": _PF,
+        "old": "    response_tlv = dict(response_tlv)\n    handle_state_step(response_tlv, TLV.M4)\n\n    # return function",
+        "new": "    response_tlv = dict(response_tlv)\n\n    # return function",
+        "expect": "C04.G3",
+    },
+    {
+        "name": "step check of setup M2 expects M4",
+        "file": _PF,
+        "old": "    handle_state_step(response_tlv, TLV.M2)\n\n    if TLV.kTLVType_PublicKey not in response_tlv:\n        raise InvalidError(\"M2: Accessory did not send public key\")",
+        "new": "    handle_state_step(response_tlv, TLV.M4)\n\n    if TLV.kTLVType_PublicKey not in response_tlv:\n        raise InvalidError(\"M2: Accessory did not send public key\")",
+        "expect": "C04.G3",
+    },
+    {
+        "name": "field presence checked before the step check (wrong class for error replies)",
+        "file": _PF,
+        "old": "    handle_state_step(response_tlv, TLV.M4)\n\n    if TLV.kTLVType_Proof not in response_tlv:\n        raise InvalidError(\"M5: not an error or a proof\")\n",
+        "new": "    if TLV.kTLVType_Proof not in response_tlv:\n        raise InvalidError(\"M5: not an error or a proof\")\n\n    handle_state_step(response_tlv, TLV.M4)\n",
+        "expect": "C04.G3",
+    },
+    {
+        "name": "IP add_pairing returns before the error test",
+        "file": "aiohomekit/controller/ip/pairing.py",
+        "old": "        if TLV.kTLVType_Error in data:\n            error_handler(data[TLV.kTLVType_Error], \"M2\")\n\n        return True",
+        "new": "        if data.get(TLV.kTLVType_State):\n            return True\n        if TLV.kTLVType_Error in data:\n            error_handler(data[TLV.kTLVType_Error], \"M2\")\n\n        return True",
+        "expect": "C04.G4",
+    },
+    {
+        "name": "BLE remove_pairing: unknown errors only logged",
+        "file": "aiohomekit/controller/ble/pairing.py",
+        "old": '            raise UnknownError(f"{self.name}: Remove pairing failed: unknown error")',
+        "new": '            logger.debug(f"{self.name}: Remove pairing failed: unknown error")',
+        "expect": "C04.G4",
+    },
+    {
+        "name": "IP remove_pairing: state test dropped",
+        "file": "aiohomekit/controller/ip/pairing.py",
+        "old": '        if data.get(TLV.kTLVType_State, TLV.M2) != TLV.M2:\n            raise InvalidError("Unexpected state after removing pairing request")\n',
+        "new": "",
+        "expect": "C04.G4",
+    },
+]
